@@ -222,7 +222,7 @@ def stepThread (cfg : NCfg) (t : Nat) (th : NThread) (objs : Nat → NRState) :
   | [] =>
     match th.queue with
     | [] => (th, objs, .silent)
-    | c :: rest => ({ th with queue := rest, stack := [frameOf c] }, objs, .call)
+    | c :: rest => ({ th with queue := rest, stack := [frameOf c] }, objs, .silent)
   | fr :: below =>
     match stepTop cfg t th.nalloc fr (objs fr.obj) with
     | .cont l fr' r' n' =>
